@@ -2,6 +2,9 @@ package props
 
 import (
 	"fmt"
+	"math/rand"
+	"path"
+	"strings"
 
 	intoto "github.com/in-toto/in-toto-golang/in_toto"
 
@@ -42,6 +45,79 @@ func c17Pair(c *core.Ctx, pat string, pp ref.Pattern, name string) {
 		c.Violation(fmt.Sprintf("glob disagreement: implementation=%v reference=%v (malformed=%v)", got, want, pp.Malformed),
 			fmt.Sprintf("pair:%q:%q", pat, name), map[string]any{"pattern": pat, "name": name, "implementation": got, "reference": want})
 	}
+}
+
+// tokenPattern builds a (mostly well-formed) pattern from grammar tokens, and a
+// name that is derived from it, so that classes, negated classes, escapes and
+// stars are exercised in combination far beyond the exhaustive bound.
+func tokenPattern(r *rand.Rand, letters []string) (string, string) {
+	var pat, name strings.Builder
+	pick := func() string { return letters[r.Intn(len(letters))] }
+	for k, n := 0, 1+r.Intn(7); k < n; k++ {
+		switch r.Intn(9) {
+		case 0:
+			pat.WriteString("*")
+			for j, m := 0, r.Intn(3); j < m; j++ {
+				name.WriteString(pick())
+			}
+		case 1:
+			pat.WriteString("?")
+			name.WriteString(pick())
+		case 2, 3: // class
+			a, b := pick(), pick()
+			pat.WriteString("[" + a + b + "]")
+			switch r.Intn(3) {
+			case 0:
+				name.WriteString(a)
+			case 1:
+				name.WriteString(b)
+			default:
+				name.WriteString(pick())
+			}
+		case 4: // negated class
+			a := pick()
+			pat.WriteString("[^" + a + "]")
+			if r.Intn(3) == 0 {
+				name.WriteString(a)
+			} else {
+				name.WriteString(pick())
+			}
+		case 5: // range
+			pat.WriteString("[a-c]")
+			name.WriteString([]string{"a", "b", "c", "d", "B"}[r.Intn(5)])
+		case 6: // escape
+			ch := []string{"*", "?", "[", "\\", "a", "."}[r.Intn(6)]
+			pat.WriteString("\\" + ch)
+			if r.Intn(4) == 0 {
+				name.WriteString(pick())
+			} else {
+				name.WriteString(ch)
+			}
+		default:
+			l := pick()
+			pat.WriteString(l)
+			if r.Intn(8) == 0 {
+				name.WriteString(pick())
+			} else {
+				name.WriteString(l)
+			}
+		}
+	}
+	return pat.String(), name.String()
+}
+
+// matchViaRule observes the matcher through the MATCH rule entry point: the
+// artifact `name` is consumed by "MATCH <pattern> WITH PRODUCTS FROM dst" (the
+// destination reports the same artifact) iff the pattern matches the name.
+func matchViaRule(pattern, name string) (matched bool, err error) {
+	h := intoto.HashObj{"sha256": "aa"}
+	items := []interface{}{intoto.Step{Type: "step", SupplyChainItem: intoto.SupplyChainItem{Name: "src", ExpectedMaterials: [][]string{{"MATCH", pattern, "WITH", "PRODUCTS", "FROM", "dst"}, {"DISALLOW", "*"}}}}}
+	md := map[string]intoto.Metadata{
+		"src": &intoto.Metablock{Signed: intoto.Link{Type: "link", Name: "src", Materials: map[string]intoto.HashObj{name: h}}},
+		"dst": &intoto.Metablock{Signed: intoto.Link{Type: "link", Name: "dst", Products: map[string]intoto.HashObj{name: h}}},
+	}
+	verr := intoto.VerifyArtifacts(items, md)
+	return verr == nil, nil
 }
 
 func runC17(c *core.Ctx) {
@@ -127,9 +203,9 @@ func runC17(c *core.Ctx) {
 
 	// random longer ASCII and UTF-8 patterns and names
 	nrand := c.Pick(200000, 5000000)
-	asciiP := []string{"a", "b", "c", "x", "/", ".", "*", "*", "?", "[", "]", "^", "-", "\\", "d", "0", "9", "_"}
+	asciiP := []string{"a", "b", "c", "x", "/", ".", "*", "*", "?", "[", "]", "^", "-", "\\", "d", "0", "9", "_", "A", "B", "M"}
 	utfP := append(append([]string{}, asciiP...), "é", "ß", "日", "本", "𝄞", "😀", "ж")
-	asciiN := []string{"a", "b", "c", "x", "/", ".", "d", "0", "9", "_", "-", "]", "[", "*", "?", "\\", "^"}
+	asciiN := []string{"a", "b", "c", "x", "/", ".", "d", "0", "9", "_", "-", "]", "[", "*", "?", "\\", "^", "A", "B", "M"}
 	utfN := append(append([]string{}, asciiN...), "é", "ß", "日", "本", "𝄞", "😀", "ж")
 	rmatched := int64(0)
 	for i := 0; i < nrand; i++ {
@@ -195,6 +271,49 @@ func runC17(c *core.Ctx) {
 		}
 	}
 	c.Obs("random_pairs_reference_match", rmatched)
+	// token-based random patterns (well-formed combinations of classes, negated classes, ranges,
+	// escapes, stars), observed through Set.Filter AND through the MATCH rule
+	ntok := c.Pick(150000, 3000000)
+	tmatched, viaRule := int64(0), int64(0)
+	letters := []string{"a", "b", "c", ".", "/", "x", "B", "M", "é", "日"}
+	for i := 0; i < ntok; i++ {
+		if !c.Mine(i) {
+			continue
+		}
+		r := c.Rand("tok", i)
+		pat, name := tokenPattern(r, letters)
+		id := fmt.Sprintf("pair:%q:%q", pat, name)
+		if !c.Want(id) {
+			continue
+		}
+		pp := ref.ParseGlob(pat)
+		if pp.Abstain {
+			continue
+		}
+		c.Guard(id, "Set.Filter", map[string]any{"pattern": pat, "name": name}, func() { c17Pair(c, pat, pp, name) })
+		c.Eval(1)
+		c.Class("tok", pat, name)
+		want := pp.Match(name)
+		if want {
+			tmatched++
+		}
+		// the MATCH entry point: only for clean, non-empty patterns and names (the rule code cleans paths)
+		if i%3 == 0 && name != "" && pat != "" && path.Clean(pat) == pat && path.Clean(name) == name {
+			var got bool
+			if !c.Guard(id, "VerifyArtifacts(MATCH)", map[string]any{"pattern": pat, "name": name}, func() { got, _ = matchViaRule(pat, name) }) {
+				c.Eval(1)
+				viaRule++
+				if got != want {
+					c.Violation(fmt.Sprintf("glob disagreement through the MATCH rule: consumed=%v reference match=%v", got, want), id, map[string]any{"pattern": pat, "name": name, "via": "MATCH <pattern> WITH PRODUCTS FROM dst; DISALLOW *"})
+				}
+			}
+		}
+		if i%70001 == 3 {
+			c.Sample("token-based", map[string]any{"pattern": pat, "name": name, "match": want})
+		}
+	}
+	c.Obs("token_pairs_reference_match", tmatched)
+	c.Obs("pairs_also_observed_through_MATCH_rule", viaRule)
 	// replay of an enumerated pair
 	if c.Only != "" && len(c.Only) > 5 && c.Only[:5] == "pair:" {
 		var pat, name string
@@ -210,7 +329,7 @@ func init() {
 	core.Register(&core.Property{
 		ID:    "C17",
 		Level: "exploration",
-		Rule: "exhaustive: every pattern of length<=4 (quick) / <=6 (thorough) over {a b / * ? [ ] ^ - \\} x every name of length<=4 / <=5 over {a b / - ]}, plus seeded random ASCII and valid-UTF-8 patterns<=24 / names<=40 (half of the names derived from the pattern so that matches are frequent); " +
+		Rule: "exhaustive: every pattern of length<=4 (quick) / <=6 (thorough) over {a b / * ? [ ] ^ - \\} x every name of length<=4 / <=5 over {a b / - ]}, plus seeded random ASCII and valid-UTF-8 patterns<=24 / names<=40 (half of the names derived from the pattern so that matches are frequent), plus token-based random patterns (1-7 tokens from {literal, *, ?, class, negated class, range, escape} with a name derived from them; a third of these pairs is also observed through the MATCH rule of VerifyArtifacts); " +
 			"observation = len(NewSet(name).Filter(pattern))==1, oracle = reference matcher written from the documented grammar; non-trivial = the pattern contains a metacharacter; distinct = enumerated pairs are distinct by construction, random pairs by hash of (pattern,name)",
 		Assumptions: []string{
 			"the reference matcher encodes the documented grammar; a negated class containing a reversed range ([^b-a]) is not judged (counted as inconclusive)",
@@ -218,7 +337,7 @@ func init() {
 		},
 		Workers: func(string) int { return 16 },
 		Floors: func(string) map[string]int64 {
-			return map[string]int64{"enum_pairs_reference_match": 1000, "enum_patterns_malformed": 100, "random_pairs_reference_match": 1000}
+			return map[string]int64{"enum_pairs_reference_match": 1000, "enum_patterns_malformed": 100, "random_pairs_reference_match": 1000, "token_pairs_reference_match": 5000, "pairs_also_observed_through_MATCH_rule": 5000}
 		},
 		Run: runC17,
 		TimeoutS: func(t string) int {
